@@ -320,3 +320,26 @@ func verifLemmaUint32RoundTrip(schema *schema_j5pb.Field, pv protoreflect.Value)
 	}
 	return scalarReflectFromGo(schema, json.Number(strconv.FormatUint(uint64(g.(uint32)), 10))) // bare on the wire
 }
+
+// ---- BCL literals (C07): an integer literal is accepted exactly within the width of its target format --
+// astInt(v)/astIntVal(v): the AST value is an integer token, and its value.
+//@ spec func astInt(v ASTValue) bool
+//@ spec func astIntVal(v ASTValue) int
+//@ func (ASTValue).AsInt
+//@   opt assumed definitional for astInt/astIntVal: an integer token parsed with strconv at the requested width (parser.Value.AsInt)
+//@   pure reads
+//@   ensures bits == 32 ==> ((result1 == nil) <==> (astInt(recv) && 0 - 2147483648 <= astIntVal(recv) && astIntVal(recv) <= 2147483647))
+//@   ensures bits == 64 ==> ((result1 == nil) <==> (astInt(recv) && 0 - 9223372036854775808 <= astIntVal(recv) && astIntVal(recv) <= 9223372036854775807))
+//@   ensures result1 == nil ==> result0 == astIntVal(recv)
+//@ func (ASTValue).AsUint
+//@   opt assumed definitional for astInt/astIntVal (parser.Value.AsUint)
+//@   pure reads
+//@   ensures bits == 32 ==> ((result1 == nil) <==> (astInt(recv) && 0 <= astIntVal(recv) && astIntVal(recv) <= 4294967295))
+//@   ensures bits == 64 ==> ((result1 == nil) <==> (astInt(recv) && 0 <= astIntVal(recv) && astIntVal(recv) <= 18446744073709551615))
+//@   ensures result1 == nil ==> result0 == astIntVal(recv)
+//@ func scalarReflectFromAST
+//@   requires schema != nil && value != nil
+//@   ensures int32: intFmt(schema, schema_j5pb.IntegerField_FORMAT_INT32) ==> ((result1 == nil) <==> (astInt(value) && 0 - 2147483648 <= astIntVal(value) && astIntVal(value) <= 2147483647)) && (result1 == nil ==> pvNum(result0) == astIntVal(value))
+//@   ensures int64: intFmt(schema, schema_j5pb.IntegerField_FORMAT_INT64) ==> ((result1 == nil) <==> (astInt(value) && 0 - 9223372036854775808 <= astIntVal(value) && astIntVal(value) <= 9223372036854775807)) && (result1 == nil ==> pvNum(result0) == astIntVal(value))
+//@   ensures uint32: intFmt(schema, schema_j5pb.IntegerField_FORMAT_UINT32) ==> ((result1 == nil) <==> (astInt(value) && 0 <= astIntVal(value) && astIntVal(value) <= 4294967295)) && (result1 == nil ==> pvNum(result0) == astIntVal(value))
+//@   ensures uint64: intFmt(schema, schema_j5pb.IntegerField_FORMAT_UINT64) ==> ((result1 == nil) <==> (astInt(value) && 0 <= astIntVal(value) && astIntVal(value) <= 18446744073709551615)) && (result1 == nil ==> pvNum(result0) == astIntVal(value))
